@@ -42,6 +42,8 @@ HOSTILE_WORDS = ['"quoted"', "it's", 'a,b', 'two words', 'naïve', 'señor', 'gr
                  # characters that str.splitlines() treats as line boundaries but that are not Humdrum record separators
                  'la\u2028li', 'a\x0cb', 'x\x85y', 'p\u2029q', 'v\x0bt', 'f\x1cs', '\x1e', 'nb\xa0sp']
 SEPARATOR_WORDS = ['col·le', 'me@example.org', '@', '·', 'a@b·c']
+# characters str.splitlines() breaks at, inside a word (never a Humdrum record separator)
+BOUNDARY_WORDS = ['la\u2028li', 'a\x0cb', 'x\x85y', 'p\u2029q', 'v\x0bt', 'f\x1cs', 'g\x1dh', 'k\x1el']
 
 
 @dataclass
@@ -112,6 +114,7 @@ class Profile:
     p_hidden_bar: float = 0.0            # invisible barlines (=-, =1-): only the measure-structure checks turn this on
     hostile: float = 0.5
     hostile_text: float = 0.25
+    boundary_text: float = 0.0           # probability that a lyric / field comment holds a Unicode line-boundary character
     separator_text: float = 0.0
     p_chord: float = 0.15
     p_rest: float = 0.12
@@ -235,6 +238,9 @@ class _Gen:
         if p.long_text and rng.random() < p.long_text:
             self.doc.tags.add('long_text_cell')
             return Cell('text', ' '.join(rng.choice(WORDS) for _ in range(rng.randint(40, 120))))
+        if p.boundary_text and rng.random() < p.boundary_text:
+            self.doc.tags.add('line_boundary_character_in_text')
+            return Cell('text', rng.choice(BOUNDARY_WORDS))
         if rng.random() < p.hostile_text:
             w = rng.choice(HOSTILE_WORDS)
             if w.startswith('"'):
@@ -350,6 +356,9 @@ class _Gen:
                 if self.p.separator_text and rng.random() < self.p.separator_text:
                     w = rng.choice(SEPARATOR_WORDS)
                     self.doc.tags.add('separator_in_text_cell')
+                if self.p.boundary_text and rng.random() < self.p.boundary_text:
+                    w = rng.choice(BOUNDARY_WORDS)
+                    self.doc.tags.add('line_boundary_character_in_text')
                 if w.startswith('!'):
                     w = 'x' + w
                 cells.append(Cell('fcomment', '!' + w))
